@@ -50,6 +50,7 @@ typedef struct
 
 } Skinny128CTRVec256Ctx_t;
 
+static void skinny128_ctr_vec256_reset_keystream(Skinny128CTRVec256Ctx_t *ctx);
 static int skinny128_ctr_vec256_set_counter
     (Skinny128CTR_t *ctr, const void *counter, unsigned size);
 
@@ -97,7 +98,7 @@ static int skinny128_ctr_vec256_set_key
         return 0;
 
     /* Reset the keystream */
-    ctx->offset = SKINNY128_CTR_BLOCK_SIZE;
+    skinny128_ctr_vec256_reset_keystream(ctx);
     return 1;
 }
 
@@ -118,7 +119,7 @@ static int skinny128_ctr_vec256_set_tweaked_key
         return 0;
 
     /* Reset the keystream */
-    ctx->offset = SKINNY128_CTR_BLOCK_SIZE;
+    skinny128_ctr_vec256_reset_keystream(ctx);
     return 1;
 }
 
@@ -137,7 +138,7 @@ static int skinny128_ctr_vec256_set_tweak
         return 0;
 
     /* Reset the keystream */
-    ctx->offset = SKINNY128_CTR_BLOCK_SIZE;
+    skinny128_ctr_vec256_reset_keystream(ctx);
     return 1;
 }
 
@@ -160,6 +161,42 @@ STATIC_INLINE void skinny128_ctr_increment
         ptr[0] = (uint8_t)inc;
         inc >>= 8;
     }
+}
+
+/* Decrement a specific column in an array of row vectors */
+STATIC_INLINE void skinny128_ctr_decrement
+    (SkinnyVector8x32_t *counter, unsigned column, unsigned dec)
+{
+    uint8_t *ctr = ((uint8_t *)counter) + column * 4;
+    uint8_t *ptr;
+    unsigned index;
+    for (index = 16; index > 0; ) {
+        --index;
+        ptr = ctr + (index & 0x0C) * 8;
+#if SKINNY_LITTLE_ENDIAN
+        ptr += index & 0x03;
+#else
+        ptr += 3 - (index & 0x03);
+#endif
+        dec = ptr[0] - dec;
+        ptr[0] = (uint8_t)dec;
+        dec = (dec >> 8) & 1;
+    }
+}
+
+/* Discards the buffered keystream after a key or tweak change.  The change
+   takes effect at the next block boundary, exactly as in the generic back
+   end, so the lane counters are rewound over the blocks of the current
+   batch that were generated but never used */
+static void skinny128_ctr_vec256_reset_keystream(Skinny128CTRVec256Ctx_t *ctx)
+{
+    if (ctx->offset < SKINNY128_CTR_BLOCK_SIZE) {
+        unsigned unused = (SKINNY128_CTR_BLOCK_SIZE - ctx->offset) / SKINNY128_BLOCK_SIZE;
+        unsigned column;
+        for (column = 0; column < 8; ++column)
+            skinny128_ctr_decrement(ctx->counter, column, unused);
+    }
+    ctx->offset = SKINNY128_CTR_BLOCK_SIZE;
 }
 
 static int skinny128_ctr_vec256_set_counter
